@@ -57,11 +57,15 @@ pub struct Checker {
     pub snap: TrustSnap,
     pub prev_td: Option<U256>,
     pub prev_tip: Vec<u8>,
+    /// headers outside the honest chain tree that were adopted consistently (dummy PoW)
+    pub attacker_blocks: HashMap<Vec<u8>, U256>,
     /// sessions whose timeout-disconnect is justified by an injected fault / silent server
     pub excused: HashMap<usize, String>,
     pub unwind_ctx: Option<String>,
     /// the message currently being handled by the client: (session, provenance, bytes)
     pub cur: Option<(usize, Tag, Bytes)>,
+    /// the message handled by the event that just finished (for checks run after the event)
+    pub last_cur: Option<(usize, Tag, Bytes)>,
     /// set_scripts calls that rewound filter sync: (min_filtered before, after, genesis re-filtered)
     pub rewinds: Vec<(u64, u64, bool)>,
     /// the injected crash interrupted a set_scripts call
@@ -452,10 +456,11 @@ impl Checker {
         crate::oracle2::c06_after(self, sim, session, proto, data, tag);
         crate::oracle2::c11_after(self, sim, session, proto, data, tag);
         crate::oracle2::c16_after_deliver(self, sim, session, proto, data, tag);
-        self.cur = None;
+        self.last_cur = self.cur.take();
     }
 
     pub fn before_timer(&mut self, sim: &mut Sim, proto: Proto, token: u64) {
+        self.last_cur = None;
         self.collect_allowed_starts(sim);
         crate::oracle2::c11_before_timer(self, sim, proto, token);
     }
